@@ -535,8 +535,23 @@ func (f *fileGen) simple(s ast.Stmt, anchor token.Pos) {
 	if len(fd.blocking) == 0 && len(fd.closes) == 0 {
 		return
 	}
-	switch s.(type) {
-	case *ast.DeferStmt, *ast.GoStmt:
+	switch d := s.(type) {
+	case *ast.DeferStmt:
+		// `defer close(ch)` with a plain variable: the close becomes the body
+		// of a deferred function literal with a yield in front of it (the
+		// variable is read when the function returns instead of when the
+		// defer statement runs; accepted for identifiers only)
+		if id, ok := d.Call.Fun.(*ast.Ident); ok && id.Name == "close" && len(d.Call.Args) == 1 && len(fd.blocking) == 0 && len(fd.closes) == 1 {
+			if _, plain := d.Call.Args[0].(*ast.Ident); plain {
+				st := f.site(s.Pos(), "close")
+				f.insert(d.Call.Pos(), "func() { simrt.Yield("+q(st)+"); ")
+				f.insert(s.End(), " }()")
+				return
+			}
+		}
+		f.refuse(s.Pos(), "channel operation evaluated directly in a defer/go statement")
+		return
+	case *ast.GoStmt:
 		f.refuse(s.Pos(), "channel operation evaluated directly in a defer/go statement")
 		return
 	}
